@@ -413,7 +413,7 @@ Section Proofs.
   Lemma sign_registration_ok a reg s :
     sign_registration H sig P E Sv a reg = Ok s ->
     exists r dt domain, reg = Some r /\ s_builder Sv = Some dt /\ p_genesis P dt = Some domain /\
-                        s = sign (a_key a) (csr (htr_registration H r) domain) /\ a_fail a = false.
+                        s = sign (a_key a) (csr (htr_registration H (wire_registration r)) domain) /\ a_fail a = false.
   Proof.
     unfold sign_registration. destruct reg as [r|]; [|discriminate].
     destruct (s_builder Sv) as [dt|]; [|discriminate].
